@@ -22,7 +22,7 @@ CFG = dict(
              "from an alphabet with quotes, delimiters, CR, LF, NUL, non-UTF-8, spaces, key subsets/orders incl. none, empty "
              "and odd header names, duplicate keys inserted at random places and at rows 253..256, delimiters , ; tab |, run "
              "sizes 1/64/4096/huge/random, workers 1/3/4/8/16; big cells; wrgl commit + wrgl export through RootCmd. "
-             "raw CSV text stream (hand-formatted lines: cells quoted only when they hold the delimiter, a quote, CR or LF; cells and column names starting/ending with blanks and tabs, blank-only cells, keys differing only by blanks, CRLF or LF line ends, missing final newline; expected rows = the generator's own cells, no trimming), through IngestTable and wrgl commit; a third of the random tables in a random text style; CLI flag stream (wrgl commit / wrgl export through their flag parsers: --delimiter over , ; tab | and the multi-byte runes U+00A7 U+00A6 U+00B7 U+20AC, -p, --mem-limit 1/64/4096/2^30, -n 1/3/4/8/16; export with the default or the same delimiter); the delimiter set of every stream includes the multi-byte runes; forced worker schedules (gated store: 3..5 blocks x 4/6/8 workers, completion orders 1-2-0, 1-0-3-2, 2-0-1, reverse) compared with the one-worker table; "
+             "raw CSV text stream (hand-formatted lines: cells quoted only when they hold the delimiter, a quote, CR or LF; cells and column names starting/ending with blanks and tabs, blank-only cells, keys differing only by blanks, CRLF or LF line ends, missing final newline; expected rows = the generator's own cells, no trimming), through IngestTable and wrgl commit; a third of the random tables in a random text style; CLI flag stream (wrgl commit / wrgl export through their flag parsers: --delimiter over , ; tab | and the multi-byte runes U+00A7 U+00A6 U+00B7 U+20AC, -p, --mem-limit 1/64/4096/2^30, -n 1/3/4/8/16; export with the default or the same delimiter); the delimiter set of every stream includes the multi-byte runes; EVERY completion order of the blocks for tables of 3 and 4 blocks (6 + 24 permutations, one effective worker per block, each block held until its predecessor in the order is completed) plus random orders of 5 and 6 blocks, judged by rows-out-of-order / schedule-dependent-table / block-index-mismatch; forced worker schedules (gated store: 3..5 blocks x 4/6/8 workers, completion orders 1-2-0, 1-0-3-2, 2-0-1, reverse) compared with the one-worker table; "
              "distinct = distinct case text; non-trivial = at least two rows",
         trusted=["the case holds the CSV after parsing; Run serialises it (own writer, heavy-quoting or raw style) and checks a plain encoding/csv parse (no trimming) reads it back "
                  "unchanged (so \\r\\n inside a cell, which the Go reader turns into \\n, never appears in a case)",
